@@ -184,6 +184,9 @@ class C17(Check):
     ]
 
     def preload(self):
+        from checks import c19
+
+        c19.preload_cotenant()
         import okdmr.dmrlib.protocols.hytera.rrs_datagram_protocol  # noqa
         import okdmr.dmrlib.hytera.pdu.text_message_protocol  # noqa
         import okdmr.dmrlib.hytera.pdu.location_protocol  # noqa
@@ -277,6 +280,10 @@ class C17(Check):
             ops.append(op)
         ops.sort(key=lambda o: (o["t"], o["prio"]))
         case = {"knobs": knobs, "ops": ops, "dropped": dropped}
+        if k.random() < 0.08:
+            from checks import c19
+
+            case["cotenant"] = c19.gen_cotenant(streams["cotenant"])  # the rest of the application uses other parts of the library
         if topo == "B":
             tq = (ops[-1]["t"] if ops else 0.0) + w.choice([0.01, 1.0, 12.0])
             ops.append({"kind": "quiet", "t": round(tq, 6), "prio": 0})
@@ -331,6 +338,8 @@ class C17(Check):
 
     def simplify(self, case):
         k = case["knobs"]
+        if case.get("cotenant"):
+            yield {kk: v for kk, v in case.items() if kk != "cotenant"}
         if k.get("initial_sn"):
             yield dict(case, knobs=dict(k, initial_sn=0))
         if k.get("maint") not in (None, "none"):
@@ -400,8 +409,17 @@ class _Run:
         self.clock = SimDateTime(self.loop.time)
         mod.datetime = self.clock
         names = ["H1"] if self.knobs.get("topology", "A") == "A" else ["H1", "H2"]
+        co = self.case.get("cotenant") or []
+        if co:
+            from checks import c19
+
+            c19.run_cotenant(co[: len(co) // 2])
+            res.fault("cotenant_library_calls", len(co))
         for n in names:
             self._mk_handler(n)
+        if co:
+            mid = self.case["ops"][len(self.case["ops"]) // 2]["t"] if self.case["ops"] else 0.0
+            self.loop.call_at(mid, lambda: c19.run_cotenant(co[len(co) // 2:]), prio=0)
         maint = self.knobs.get("maint", "none")
         for n in names:
             if maint == "both" or maint == n:
